@@ -77,7 +77,7 @@ use zip::result::ZipError;
 //@@ item src/datatype.rs enum Data keep_attrs
 #[verifier::external_body] fn verif_opaque_string() -> String { String::new() }
 
-pub enum EvKind { Start, End, Text, Other, Error }
+pub enum EvKind { Start, End, Text, Comment, Other, Error }
 pub ghost struct Attr {
     pub key: Seq<u8>,     // qualified attribute name
     pub raw: Seq<u8>,     // value bytes as written between the quotes (what `Attribute::value` holds)
@@ -118,8 +118,8 @@ pub struct BytesStart<'a> { _p: core::marker::PhantomData<&'a ()> }
 pub struct BytesEnd<'a> { _p: core::marker::PhantomData<&'a ()> }
 #[verifier::external_body]
 pub struct BytesText<'a> { _p: core::marker::PhantomData<&'a ()> }
-// `Other` stands for Comment / CData / PI / Decl / DocType (never named by the verified code; `Empty` cannot occur with expand_empty_elements)
-pub enum Event<'a> { Start(BytesStart<'a>), End(BytesEnd<'a>), Text(BytesText<'a>), Other, Eof }
+// `Other` stands for CData / PI / Decl / DocType (never named by the verified code; `Empty` cannot occur with expand_empty_elements)
+pub enum Event<'a> { Start(BytesStart<'a>), End(BytesEnd<'a>), Text(BytesText<'a>), Comment(BytesText<'a>), Other, Eof }
 impl<'a> BytesStart<'a> {
     pub uninterp spec fn ev(&self) -> Ev;
     #[verifier::external_body]
@@ -146,6 +146,7 @@ pub open spec fn ev_result<'b>(r: Result<Event<'b>, quick_xml::Error>, e: Ev) ->
         EvKind::Start => r matches Ok(Event::Start(b)) && b.ev() == e,
         EvKind::End => r matches Ok(Event::End(b)) && b.ev() == e,
         EvKind::Text => r matches Ok(Event::Text(b)) && b.ev() == e,
+        EvKind::Comment => r matches Ok(Event::Comment(b)) && b.ev() == e,
         EvKind::Other => r matches Ok(Event::Other),
         EvKind::Error => r is Err,
     }
@@ -351,35 +352,23 @@ pub open spec fn first_key(attrs: Seq<Attr>, key: Seq<u8>, i: int) -> int
 {
     if i < 0 || i >= attrs.len() { attrs.len() as int } else if attrs[i].key == key { i } else { first_key(attrs, key, i + 1) }
 }
-/// C04 value typing: `d` is the value the value attribute `a` denotes
+/// C04 value typing: `d` is the value the value attribute `a` denotes (XML 1.0 3.3.3: the value of an attribute is its text with
+/// character and entity references resolved: `unesc`)
 pub open spec fn typed_as(d: Data, a: Attr) -> bool {
-    match value_kind(a.key) {
-        Some(ValKind::Float) => utf8(a.raw) is Some && str_parse::<f64>(utf8(a.raw)->Some_0) is Some
-            && d == Data::Float(str_parse::<f64>(utf8(a.raw)->Some_0)->Some_0),
-        Some(ValKind::Str) => unesc(a.raw) is Some && (d matches Data::String(s) && s@ == unesc(a.raw)->Some_0),
-        Some(ValKind::Date) => unesc(a.raw) is Some && (d matches Data::DateTimeIso(s) && s@ == unesc(a.raw)->Some_0),
-        Some(ValKind::Time) => unesc(a.raw) is Some && (d matches Data::DurationIso(s) && s@ == unesc(a.raw)->Some_0),
-        Some(ValKind::Bool) => d == Data::Bool(a.raw == b"TRUE"@ || a.raw == b"true"@),
-        None => false,
-    }
-}
-/// XML 1.0 3.3.3: the value of an attribute is its text with character and entity references resolved (`unesc`).  typed_as reads the
-/// numeric and the boolean attribute as the RAW bytes between the quotes; this is the same statement over the attribute VALUE.
-/// It coincides with typed_as when the value is written without references (lemma_plain_form); in general the code does not satisfy it
-/// (findings/odsxml.json).
-pub open spec fn typed_as_xml(d: Data, a: Attr) -> bool {
     match value_kind(a.key) {
         Some(ValKind::Float) => unesc(a.raw) is Some && str_parse::<f64>(unesc(a.raw)->Some_0) is Some
             && d == Data::Float(str_parse::<f64>(unesc(a.raw)->Some_0)->Some_0),
+        Some(ValKind::Str) => unesc(a.raw) is Some && (d matches Data::String(s) && s@ == unesc(a.raw)->Some_0),
+        Some(ValKind::Date) => unesc(a.raw) is Some && (d matches Data::DateTimeIso(s) && s@ == unesc(a.raw)->Some_0),
+        Some(ValKind::Time) => unesc(a.raw) is Some && (d matches Data::DurationIso(s) && s@ == unesc(a.raw)->Some_0),
         Some(ValKind::Bool) => unesc(a.raw) is Some && d == Data::Bool(unesc(a.raw)->Some_0 == "TRUE"@ || unesc(a.raw)->Some_0 == "true"@),
-        _ => typed_as(d, a),
+        None => false,
     }
 }
 /// the value attribute can be represented (otherwise the reader has to report an error)
 pub open spec fn data_ok(a: Attr) -> bool {
     match value_kind(a.key) {
-        Some(ValKind::Float) => utf8(a.raw) is Some && str_parse::<f64>(utf8(a.raw)->Some_0) is Some,
-        Some(ValKind::Bool) => true,
+        Some(ValKind::Float) => unesc(a.raw) is Some && str_parse::<f64>(unesc(a.raw)->Some_0) is Some,
         Some(_) => unesc(a.raw) is Some,
         None => false,
     }
@@ -421,9 +410,8 @@ pub ghost struct TxtSt {
     pub paras: nat,       // number of paragraphs started so far
     pub pdepth: nat,      // number of <text:p> elements open
     pub in_annot: bool,   // inside <office:annotation>
-    pub plain: bool,      // so far the content used only: character data inside paragraphs, <text:s>
 }
-pub open spec fn txt_init() -> TxtSt { TxtSt { s: Seq::empty(), paras: 0, pdepth: 0, in_annot: false, plain: true } }
+pub open spec fn txt_init() -> TxtSt { TxtSt { s: Seq::empty(), paras: 0, pdepth: 0, in_annot: false } }
 pub open spec fn is_cell_name(n: Seq<u8>) -> bool { n == n_cell() || n == n_covered() }
 /// THE PARAGRAPH RULE, one event of the content of a cell:
 ///  * everything inside <office:annotation> .. </office:annotation> contributes nothing;
@@ -437,30 +425,26 @@ pub open spec fn txt_step(st: TxtSt, e: Ev) -> TxtSt {
         if e.kind is End && e.name == n_annotation() { TxtSt { in_annot: false, ..st } } else { st }
     } else {
         match e.kind {
-            EvKind::Text =>
-                if st.pdepth > 0 { TxtSt { s: st.s + e.text, ..st } }
-                else { TxtSt { plain: st.plain && e.text.len() == 0, ..st } },
+            EvKind::Text => if st.pdepth > 0 { TxtSt { s: st.s + e.text, ..st } } else { st },
             EvKind::Start =>
                 if e.name == n_annotation() { TxtSt { in_annot: true, ..st } }
                 else if e.name == n_p() {
                     TxtSt { s: if st.paras > 0 { st.s.push('\n') } else { st.s }, paras: st.paras + 1, pdepth: st.pdepth + 1, ..st }
                 }
-                else if e.name == n_s() {
-                    if st.pdepth > 0 && space_count(e.attrs) is Some { TxtSt { s: st.s + spaces(space_count(e.attrs)->Some_0), ..st } }
-                    else { TxtSt { plain: false, ..st } }
-                }
-                else if e.name == n_tab() { if st.pdepth > 0 { TxtSt { s: st.s.push('\t'), plain: false, ..st } } else { st } }
-                else if e.name == n_line_break() { if st.pdepth > 0 { TxtSt { s: st.s.push('\n'), plain: false, ..st } } else { st } }
+                // the three white-space elements (ODF allows them in paragraph content only) contribute where they occur
+                else if e.name == n_s() { if space_count(e.attrs) is Some { TxtSt { s: st.s + spaces(space_count(e.attrs)->Some_0), ..st } } else { st } }
+                else if e.name == n_tab() { TxtSt { s: st.s.push('\t'), ..st } }
+                else if e.name == n_line_break() { TxtSt { s: st.s.push('\n'), ..st } }
                 else { st },
             EvKind::End => if e.name == n_p() && st.pdepth > 0 { TxtSt { pdepth: (st.pdepth - 1) as nat, ..st } } else { st },
             _ => st,
         }
     }
 }
-/// the event can be decoded (outside annotations: character data unescapes, a space count is readable)
+/// the event can be decoded (outside annotations: the character data of a paragraph unescapes, a space count is readable)
 pub open spec fn step_ok(st: TxtSt, e: Ev) -> bool {
     st.in_annot || match e.kind {
-        EvKind::Text => e.text_ok,
+        EvKind::Text => st.pdepth > 0 ==> e.text_ok,
         EvKind::Start => e.name == n_s() ==> space_count(e.attrs) is Some,
         _ => true,
     }
@@ -494,18 +478,13 @@ proof fn lemma_cell_scan_end(evs: Seq<Ev>, i: int, st: TxtSt)
     }
 }
 /// named proof obligations at the arms of the text loop (each says: after this arm the assembled text is the specified one)
-pub open spec fn text_appended(st0: TxtSt, st: TxtSt, e: Ev, s: Seq<char>) -> bool { st == txt_step(st0, e) && (st.plain ==> s == st.s) }
+pub open spec fn text_appended(st0: TxtSt, st: TxtSt, e: Ev, s: Seq<char>) -> bool { st == txt_step(st0, e) && s == st.s }
 pub open spec fn paragraph_joined(st0: TxtSt, st: TxtSt, s: Seq<char>) -> bool {
-    st.paras == st0.paras + 1 && st.s == (if st0.paras > 0 { st0.s.push('\n') } else { st0.s }) && (st.plain ==> s == st.s)
+    st.paras == st0.paras + 1 && st.s == (if st0.paras > 0 { st0.s.push('\n') } else { st0.s }) && s == st.s
 }
-pub open spec fn spaces_expanded(st0: TxtSt, st: TxtSt, e: Ev, s: Seq<char>) -> bool { st == txt_step(st0, e) && (st.plain ==> s == st.s) }
+pub open spec fn spaces_expanded(st0: TxtSt, st: TxtSt, e: Ev, s: Seq<char>) -> bool { st == txt_step(st0, e) && s == st.s }
 
 //@@ props C04
-/// written without references, the numeric attribute means the same under both readings
-proof fn lemma_plain_form(d: Data, a: Attr)
-    requires typed_as(d, a), value_kind(a.key) == Some(ValKind::Float), unesc(a.raw) == utf8(a.raw),
-    ensures typed_as_xml(d, a),
-{}
 proof fn lemma_first_value(attrs: Seq<Attr>, i: int, k: int)
     requires 0 <= i <= k <= attrs.len(), forall|j: int| i <= j < k ==> value_kind((#[trigger] attrs[j]).key) is None,
     ensures
@@ -648,6 +627,10 @@ proof fn witness_resource_bounds()
 //@@ fn src/ods.rs get_datatype props=C04,C19,C14 entry ret=r r11 r12
 //@@ r6 0
 //@@ sig
+    requires
+        // resource bound: the part has no more XML events than a usize can count (the open-paragraph counter is a usize)
+        //# C06.get_datatype_resource_bound_events
+        old(reader).events().len() <= usize::MAX,
     ensures
         //# C04.ods_events_frame
         final(reader).events() == old(reader).events(),
@@ -657,8 +640,6 @@ proof fn witness_resource_bounds()
         (exists|j: int| 0 <= j < atts.rem().len() && (#[trigger] atts.rem()[j]).err) ==> r is Err,
         //# C04.ods_value_typing
         r is Ok && first_value(atts.rem(), 0) < atts.rem().len() ==> typed_as(r->Ok_0.0, atts.rem()[first_value(atts.rem(), 0)]),
-        //# C04.ods_value_typing_unescaped
-        r is Ok && first_value(atts.rem(), 0) < atts.rem().len() ==> typed_as_xml(r->Ok_0.0, atts.rem()[first_value(atts.rem(), 0)]),
         //# C04.ods_no_value_is_empty
         r is Ok && first_value(atts.rem(), 0) >= atts.rem().len() && !text_route(atts.rem()) ==> r->Ok_0.0 == Data::Empty,
         //# C14.ods_formula_text
@@ -671,17 +652,14 @@ proof fn witness_resource_bounds()
         r is Ok && text_route(atts.rem()) ==> cell_scan(old(reader).events(), old(reader).pos() as int, txt_init()).ok
             && final(reader).pos() == cell_scan(old(reader).events(), old(reader).pos() as int, txt_init()).end + 1,
         //# C19.ods_cell_text
-        r is Ok && text_route(atts.rem()) && cell_scan(old(reader).events(), old(reader).pos() as int, txt_init()).st.plain ==>
+        r is Ok && text_route(atts.rem()) ==>
             (r->Ok_0.0 matches Data::String(s) && s@ == cell_text(old(reader).events(), old(reader).pos() as int)),
         //# C04.ods_value_is_the_function_unit_ods_assumes
-        r is Ok && (text_route(atts.rem()) ==> cell_scan(old(reader).events(), old(reader).pos() as int, txt_init()).st.plain) ==>
+        r is Ok ==>
             r->Ok_0.0 == gd_value(old(reader).events(), old(reader).pos(), atts.rem())
             && r->Ok_0.1@ == gd_formula(old(reader).events(), old(reader).pos(), atts.rem())
             && r->Ok_0.2 == gd_closed(old(reader).events(), old(reader).pos(), atts.rem())
             && final(reader).pos() == gd_next(old(reader).events(), old(reader).pos(), atts.rem()),
-        //# C19.ods_cell_text_any_content
-        r is Ok && text_route(atts.rem()) ==>
-            (r->Ok_0.0 matches Data::String(s) && s@ == cell_text(old(reader).events(), old(reader).pos() as int)),
 //@@ body
     let ghost evs = reader.events();
     let ghost p0 = reader.pos();
@@ -699,7 +677,7 @@ proof fn witness_resource_bounds()
 //@@ loop 0
         invariant
             reader.events() == evs, reader.pos() == p0, evs == old(reader).events(), p0 == old(reader).pos(),
-            attrs0 == atts.rem(), attrs_wf(attrs0),
+            attrs0 == atts.rem(), attrs_wf(attrs0), evs.len() <= usize::MAX,
             fv == first_value(attrs0, 0), fi == first_key(attrs0, k_formula(), 0), vt == first_key(attrs0, k_vtype(), 0),
             0 <= k <= attrs0.len(), __it0.rem() == attrs0.skip(k),
             forall|j: int| 0 <= j < k ==> !(#[trigger] attrs0[j]).err,
@@ -745,7 +723,7 @@ proof fn witness_resource_bounds()
         let ghost tot = cell_scan(evs, p0 as int, txt_init());
         proof { assert(text_route(attrs0)); }
 //@@ before? /return Ok\(\(Data::String\(s\), formula, true\)\);/
-                    proof { if st0.plain { lemma_gd_value(Data::String(s), evs, p0, attrs0); } }
+                    proof { lemma_gd_value(Data::String(s), evs, p0, attrs0); }
 //@@ before? /Ok\(\(val, formula, false\)\)/
         proof { lemma_gd_value(val, evs, p0, attrs0); }
 //@@ loopat /loop \{\s*buf\.clear\(\);/
@@ -758,7 +736,9 @@ proof fn witness_resource_bounds()
                 //# C19.ods_annotation_ignored
                 !st.in_annot,
                 //# C19.ods_text_so_far
-                st.plain ==> s@ == st.s,
+                s@ == st.s,
+                //# C19.ods_open_paragraph_count
+                open_paragraphs == st.pdepth, st.pdepth + p0 <= reader.pos(), evs.len() <= usize::MAX,
                 //# C19.ods_first_paragraph_flag
                 first_paragraph <==> st.paras == 0,
             decreases reader.left(),
@@ -771,7 +751,7 @@ proof fn witness_resource_bounds()
 //@@ after? /s\.push_str\([^;]*;/
                     proof {
                         //# C19.ods_text_unescaped
-                        assert(text_appended(st0, st, evs[p], s@)) by { if st.plain { assert(s@ =~= st.s); } }
+                        assert(text_appended(st0, st, evs[p], s@)) by { assert(s@ =~= st.s); }
                     }
 //@@ loopat? /QName\(b"office:annotation"\) => loop/
                     invariant_except_break
@@ -781,14 +761,14 @@ proof fn witness_resource_bounds()
                         tot == cell_scan(evs, p0 as int, txt_init()),
                         text_route(attrs0), formula@ == formula_text(attrs0), forall|j: int| 0 <= j < attrs0.len() ==> !(#[trigger] attrs0[j]).err,
                         tot == cell_scan(evs, reader.pos() as int, st), reader.pos() > p,
-                        sta.plain ==> s@ == sta.s, first_paragraph <==> sta.paras == 0,
+                        s@ == sta.s, first_paragraph <==> sta.paras == 0, open_paragraphs == sta.pdepth, sta.pdepth + p0 <= reader.pos(), evs.len() <= usize::MAX,
                         //# C19.ods_annotation_ignored
                         st == (TxtSt { in_annot: st.in_annot, ..sta }),
                     ensures
                         !st.in_annot,
                         reader.events() == evs, tot == cell_scan(evs, reader.pos() as int, st), reader.pos() > p,
                         text_route(attrs0), formula@ == formula_text(attrs0), forall|j: int| 0 <= j < attrs0.len() ==> !(#[trigger] attrs0[j]).err,
-                        sta.plain ==> s@ == sta.s, first_paragraph <==> sta.paras == 0,
+                        s@ == sta.s, first_paragraph <==> sta.paras == 0, open_paragraphs == sta.pdepth, sta.pdepth + p0 <= reader.pos(), evs.len() <= usize::MAX,
                         st == (TxtSt { in_annot: st.in_annot, ..sta }),
                     decreases reader.left(),
 //@@ before? /match reader\.read_event_into\(buf\) \{\s*Ok\(Event::End\(ref e\)\) if e\.name\(\) == QName\(b"office:annotation"\)/
@@ -813,7 +793,7 @@ proof fn witness_resource_bounds()
                             tot == cell_scan(evs, reader.pos() as int, st), reader.pos() == p + 1, p < evs.len(),
                             st == txt_step(st0, evs[p]), !st0.in_annot, evs[p].kind is Start, evs[p].name == n_s(), evs[p].name != n_annotation(), evs[p].name != n_p(),
                             space_count(evs[p].attrs) == Some(count as int),
-                            st0.plain ==> sb == st0.s, first_paragraph <==> st0.paras == 0,
+                            sb == st0.s, first_paragraph <==> st0.paras == 0, open_paragraphs == st0.pdepth, st0.pdepth + p0 <= p, evs.len() <= usize::MAX,
                             //# C19.ods_space_elements
                             s@.len() == sb.len() + it3.index@ && s@.subrange(0, sb.len() as int) =~= sb
                                 && (forall|j: int| sb.len() <= j < s@.len() ==> s@[j] == ' '),
@@ -1261,34 +1241,34 @@ pub open spec fn one_ref(attrs: Seq<Attr>) -> bool {
 }
 pub ghost struct NeScan {
     pub ok: bool,                              // the closing </table:named-expressions> was reached through decodable content
-    pub strict: bool,                          // ... and there was no character data / comment between the child elements
     pub valid: bool,                           // ... and no element carried both a cell-range-address and an expression
     pub names: Seq<(Seq<char>, Seq<char>)>,    // the defined names, in document order
     pub next: nat,                             // reader position after the closing tag
 }
 /// reading the content of <table:named-expressions> from event p on; `acc` = the names met so far
-pub open spec fn ne_scan(evs: Seq<Ev>, p: nat, acc: Seq<(Seq<char>, Seq<char>)>, strict: bool, valid: bool) -> NeScan
+pub open spec fn ne_scan(evs: Seq<Ev>, p: nat, acc: Seq<(Seq<char>, Seq<char>)>, valid: bool) -> NeScan
     decreases (if p <= evs.len() { evs.len() - p } else { 0 })
 {
-    if p >= evs.len() { NeScan { ok: false, strict, valid, names: acc, next: p } }
+    if p >= evs.len() { NeScan { ok: false, valid, names: acc, next: p } }
     else {
         let e = evs[p as int];
         match e.kind {
-            EvKind::Error => NeScan { ok: false, strict, valid, names: acc, next: p },
             EvKind::Start =>
-                if is_named_el(e.name) && named_attrs_ok(e.attrs) { ne_scan(evs, p + 1, acc.push(defined_name(e.attrs)), strict, valid && one_ref(e.attrs)) }
-                else { NeScan { ok: false, strict, valid, names: acc, next: p } },
+                if is_named_el(e.name) && named_attrs_ok(e.attrs) { ne_scan(evs, p + 1, acc.push(defined_name(e.attrs)), valid && one_ref(e.attrs)) }
+                else { NeScan { ok: false, valid, names: acc, next: p } },
             EvKind::End =>
-                if is_named_el(e.name) { ne_scan(evs, p + 1, acc, strict, valid) }
-                else if e.name == n_named_expressions() { NeScan { ok: true, strict, valid, names: acc, next: p + 1 } }
-                else { NeScan { ok: false, strict, valid, names: acc, next: p } },
-            // XML: white space and comments between child elements are not content of element-only content models
-            EvKind::Text | EvKind::Other => ne_scan(evs, p + 1, acc, false, valid),
+                if is_named_el(e.name) { ne_scan(evs, p + 1, acc, valid) }
+                else if e.name == n_named_expressions() { NeScan { ok: true, valid, names: acc, next: p + 1 } }
+                else { NeScan { ok: false, valid, names: acc, next: p } },
+            // XML: white space and comments between child elements are not content of an element-only content model
+            EvKind::Text | EvKind::Comment => ne_scan(evs, p + 1, acc, valid),
+            // CDATA sections / processing instructions are not accepted here
+            EvKind::Other | EvKind::Error => NeScan { ok: false, valid, names: acc, next: p },
         }
     }
 }
 /// the defined names of the <table:named-expressions> element whose content starts at event p
-pub open spec fn named_exprs(evs: Seq<Ev>, p: nat) -> NeScan { ne_scan(evs, p, Seq::empty(), true, true) }
+pub open spec fn named_exprs(evs: Seq<Ev>, p: nat) -> NeScan { ne_scan(evs, p, Seq::empty(), true) }
 pub open spec fn names_view(v: Seq<(String, String)>) -> Seq<(Seq<char>, Seq<char>)> { Seq::new(v.len(), |i: int| (v[i].0@, v[i].1@)) }
 proof fn lemma_first_ref_le(attrs: Seq<Attr>, i: int)
     requires 0 <= i <= attrs.len(),
@@ -1297,21 +1277,6 @@ proof fn lemma_first_ref_le(attrs: Seq<Attr>, i: int)
     decreases attrs.len() - i,
 {
     if i < attrs.len() && !is_ref_key(attrs[i].key) { lemma_first_ref_le(attrs, i + 1); }
-}
-/// once character data or a comment was met, the scan is not `strict`
-proof fn lemma_ne_not_strict(evs: Seq<Ev>, p: nat, acc: Seq<(Seq<char>, Seq<char>)>, valid: bool)
-    ensures !ne_scan(evs, p, acc, false, valid).strict,
-    decreases (if p <= evs.len() { evs.len() - p } else { 0 }),
-{
-    if p < evs.len() {
-        let e = evs[p as int];
-        match e.kind {
-            EvKind::Start => { if is_named_el(e.name) && named_attrs_ok(e.attrs) { lemma_ne_not_strict(evs, p + 1, acc.push(defined_name(e.attrs)), valid && one_ref(e.attrs)); } },
-            EvKind::End => { if is_named_el(e.name) { lemma_ne_not_strict(evs, p + 1, acc, valid); } },
-            EvKind::Text | EvKind::Other => { lemma_ne_not_strict(evs, p + 1, acc, valid); },
-            EvKind::Error => {},
-        }
-    }
 }
 proof fn lemma_named_names()
     ensures k_tname() != k_cra(), k_tname() != k_expr(), !is_ref_key(k_tname()),
@@ -1333,8 +1298,6 @@ proof fn lemma_named_names()
                     names_view(r->Ok_0@) == named_exprs(old(reader).events(), old(reader).pos()).names),
         //# C16.ods_defined_names_reader_position
         r is Ok ==> final(reader).pos() == named_exprs(old(reader).events(), old(reader).pos()).next && final(reader).pos() > old(reader).pos(),
-        //# C16.ods_defined_names_accepted_compact_form
-        named_exprs(old(reader).events(), old(reader).pos()).ok && named_exprs(old(reader).events(), old(reader).pos()).strict ==> r is Ok,
         //# C16.ods_defined_names_accepted
         named_exprs(old(reader).events(), old(reader).pos()).ok ==> r is Ok,
 //@@ body
@@ -1348,7 +1311,7 @@ proof fn lemma_named_names()
 //@@ loop 0
         invariant_except_break
             //# C16.ods_defined_names_so_far
-            tot == ne_scan(evs, reader.pos(), acc, true, valid),
+            tot == ne_scan(evs, reader.pos(), acc, valid),
         invariant
             reader.events() == evs, evs == old(reader).events(), p0 == old(reader).pos(), reader.pos() >= p0,
             tot == named_exprs(evs, p0),
@@ -1360,7 +1323,7 @@ proof fn lemma_named_names()
 //@@ after /buf\.clear\(\);/
         let ghost p = reader.pos();
         let ghost dn0 = defined_names@;
-        proof { lemma_named_names(); if p < evs.len() { lemma_ne_not_strict(evs, p + 1, acc, valid); } }
+        proof { lemma_named_names(); }
 //@@ before /let mut name = String::new\(\);/
                 let ghost attrs0 = evs[p as int].attrs;
                 let ghost ni = first_key(attrs0, k_tname(), 0);
@@ -1375,7 +1338,7 @@ proof fn lemma_named_names()
 //@@ loop 1
                     invariant
                         reader.events() == evs, evs == old(reader).events(), p0 == old(reader).pos(), reader.pos() == p + 1, p < evs.len(),
-                        tot == named_exprs(evs, p0), tot == ne_scan(evs, p, acc, true, valid), defined_names@ == dn0, valid ==> names_view(dn0) == acc,
+                        tot == named_exprs(evs, p0), tot == ne_scan(evs, p, acc, valid), defined_names@ == dn0, valid ==> names_view(dn0) == acc,
                         evs[p as int].kind is Start, is_named_el(evs[p as int].name), attrs0 == evs[p as int].attrs, attrs_wf(attrs0),
                         ni == first_key(attrs0, k_tname(), 0), ri == first_ref(attrs0, 0),
                         0 <= k <= attrs0.len(), __it1.rem() == attrs0.skip(k),
@@ -1752,6 +1715,10 @@ impl Frame {
 //@@ fn src/ods.rs read_row props=C04 alias=frame entry ret=r r4 r12
 //@@ r6 1
 //@@ sig
+    requires
+        // resource bound (as for get_datatype)
+        //# C06.read_row_resource_bound_events
+        old(reader).events().len() <= usize::MAX,
     ensures
         //# C04.row_events_frame
         r is Ok ==> final(reader).events() == old(reader).events(),
@@ -1767,7 +1734,7 @@ impl Frame {
         invariant_except_break
             row_scan(evs, p0) == row_scan(evs, reader.pos()),
         invariant
-            reader.events() == evs, evs == old(reader).events(), p0 == old(reader).pos(), reader.pos() >= p0,
+            reader.events() == evs, evs == old(reader).events(), evs.len() <= usize::MAX, p0 == old(reader).pos(), reader.pos() >= p0,
             cells@.len() - old(cells)@.len() == formulas@.len() - old(formulas)@.len(),
         ensures
             row_scan(evs, p0).ok && row_scan(evs, p0).next == reader.pos() && reader.pos() > p0,
@@ -1776,7 +1743,7 @@ impl Frame {
         let ghost p = reader.pos();
 //@@ loop 1
                     invariant
-                        reader.events() == evs, evs == old(reader).events(), p0 == old(reader).pos(), reader.pos() == p + 1, p >= p0, p < evs.len(),
+                        reader.events() == evs, evs == old(reader).events(), evs.len() <= usize::MAX, p0 == old(reader).pos(), reader.pos() == p + 1, p >= p0, p < evs.len(),
                         row_scan(evs, p0) == row_scan(evs, p), is_cell_start(evs[p as int]), e.ev() == evs[p as int],
                         cells@.len() - old(cells)@.len() == formulas@.len() - old(formulas)@.len(),
                     decreases __it1.rem().len(),
@@ -1785,13 +1752,13 @@ impl Frame {
 //@@ loop 2 it2
                     invariant
                         cells@.len() - old(cells)@.len() == formulas@.len() - old(formulas)@.len(),
-                        reader.events() == evs, evs == old(reader).events(), p0 == old(reader).pos(), p >= p0, p < evs.len(),
+                        reader.events() == evs, evs == old(reader).events(), evs.len() <= usize::MAX, p0 == old(reader).pos(), p >= p0, p < evs.len(),
                         row_scan(evs, p0) == row_scan(evs, p), is_cell_start(evs[p as int]), e.ev() == evs[p as int],
                         is_closed == gd_closed(evs, p + 1, evs[p as int].attrs), reader.pos() == gd_next(evs, p + 1, evs[p as int].attrs), reader.pos() >= p + 1,
 //@@ loop 3 it3
                         invariant
                             cells@.len() - old(cells)@.len() == formulas@.len() - old(formulas)@.len(),
-                            reader.events() == evs, evs == old(reader).events(), p0 == old(reader).pos(), p >= p0, p < evs.len(),
+                            reader.events() == evs, evs == old(reader).events(), evs.len() <= usize::MAX, p0 == old(reader).pos(), p >= p0, p < evs.len(),
                             row_scan(evs, p0) == row_scan(evs, p), is_cell_start(evs[p as int]), e.ev() == evs[p as int],
                             is_closed == gd_closed(evs, p + 1, evs[p as int].attrs), reader.pos() == gd_next(evs, p + 1, evs[p as int].attrs), reader.pos() >= p + 1,
 //@@ end
